@@ -59,6 +59,14 @@ func siteKey(p *Prog, in ssa.Instruction, what string, counter map[string]int) s
 }
 
 func runC03(c *Ctx) {
+	sharedDigestRule(c, c.P, "R8", "transports/obfs4")
+	if !importing {
+		importObls(c, "C10", runC10, "X10", func(k string) bool {
+			return containsAny(k, "(*obfs4Conn).serverHandshake", "parseClientHandshake", "WrapConn", "closeAfterDelay")
+		})
+		// "never answers a replay": the replay filter's own rules
+		importObls(c, "C11", runC11, "X11", func(k string) bool { return true })
+	}
 	p := c.P
 	wrap := obfs4WrapConn(c)
 	if wrap == nil {
